@@ -357,3 +357,66 @@ def guards(node: ast.AST, stop: typing.Optional[ast.AST] = None) -> list[tuple[a
             break
         cur = par
     return out
+
+
+# --------------------------------------------------------------------------------------------------
+# path counting (R-EXACTLY-ONE)
+# --------------------------------------------------------------------------------------------------
+def header_exprs(stmt: ast.AST) -> list[ast.AST]:
+    """The expressions evaluated by the CFG node of ``stmt`` itself (bodies of compound statements are own nodes)."""
+    if isinstance(stmt, (ast.If, ast.While)):
+        return [stmt.test]
+    if isinstance(stmt, (ast.For, ast.AsyncFor)):
+        return [stmt.iter]
+    if isinstance(stmt, (ast.With, ast.AsyncWith)):
+        return [i.context_expr for i in stmt.items]
+    if isinstance(stmt, (ast.Try, ast.ExceptHandler)) or isinstance(stmt, core.FUNC + (ast.ClassDef,)):
+        return []
+    return [stmt]
+
+
+def header_calls(stmt: ast.AST) -> list[ast.Call]:
+    out = []
+    for e in header_exprs(stmt):
+        for n in ast.walk(e):
+            if isinstance(n, ast.Call):
+                out.append(n)
+    return out
+
+
+def count_events(graph: 'CFG', start, end, weight: typing.Callable[[ast.AST], int], normal_only: bool = True,
+                 region: typing.Optional[set] = None) -> typing.Optional[tuple[int, int]]:
+    """(min, max) number of events over all paths start -> end, ignoring loop back edges (each loop body is counted
+    once per entry); None when ``end`` is unreachable.  ``weight(stmt)`` = events performed by that CFG node.
+    ``start``'s own weight is included, ``end``'s is not (unless end is a statement and start == end)."""
+    na = start if isinstance(start, (str, int)) else graph.node(start)
+    nb = end if isinstance(end, (str, int)) else graph.node(end)
+    g = nx.DiGraph()
+    for u, v, d in graph.g.edges(data=True):
+        if d.get('back') or (normal_only and d.get('exc')):
+            continue
+        if region is not None and (u not in region or (v not in region and v != nb)):
+            continue
+        g.add_edge(u, v)
+    if na not in g or nb not in g:
+        return None
+    try:
+        order = list(nx.topological_sort(g))
+    except nx.NetworkXUnfeasible as err:  # pragma: no cover - would need irreducible flow
+        raise core.AnalysisError('control flow not reducible to a DAG after removing back edges') from err
+    best: dict = {na: (0, 0)}
+    for n in order:
+        if n not in best:
+            continue
+        lo, hi = best[n]
+        w = 0
+        if n != nb:
+            st = graph.stmt(n)
+            w = weight(st) if st is not None else 0
+        for s in g.successors(n):
+            cand = (lo + w, hi + w)
+            if s in best:
+                best[s] = (min(best[s][0], cand[0]), max(best[s][1], cand[1]))
+            else:
+                best[s] = cand
+    return best.get(nb)
